@@ -69,6 +69,27 @@ EXPECT += [
      "why": "several failing deferred calls: every defer still runs once"},
 ]
 
+# the arguments of a deferred call are values taken at the defer statement: what happens afterwards to the place an
+# argument was read from (a list slot, an element of a typed slice, a map entry) does not reach the deferred call
+_SLOT = [("a = [1, 2]", "a[0]", "a[0] = 9", "i:1"), ("a = make([]int64, 2); a[0] = 1", "a[0]", "a[0] = 9", "i:1"),
+         ("a = make([]string, 1); a[0] = \"x\"", "a[0]", "a[0] = \"z\"", "s:78"), ("a = {\"k\": 1}", "a.k", "a.k = 9", "i:1"),
+         ("a = [[1], [2]]", "a[0][0]", "a[0][0] = 9", "i:1"), ("a = make([]float64, 1); a[0] = 1.5", "a[0]", "a[0] = 2.5", "f:4609434218613702656")]
+for _init, _read, _write, _want in _SLOT:
+    EXPECT.append({"src": "%s\nr = []\nfunc rec(x) { r += x }\nfunc f() { defer rec(%s); %s }\nf()\nr" % (_init, _read, _write), "field": "result", "want": "[%s]" % _want,
+                   "why": "the only argument of a deferred script function is the value at the defer statement"})
+    EXPECT.append({"src": "%s\nr = []\nfunc rec(x, y) { r += x; r += y }\nfunc f() { defer rec(%s, %s); %s }\nf()\nr" % (_init, _read, _read, _write), "field": "result",
+                   "want": "[%s,%s]" % (_want, _want), "why": "every argument of a deferred script function is the value at the defer statement"})
+    EXPECT.append({"src": "%s\nr = []\nfunc rec(x...) { r += x[1] }\nfunc f() { defer rec(0, %s); %s }\nf()\nr" % (_init, _read, _write), "field": "result",
+                   "want": "[%s]" % _want, "why": "variadic arguments of a deferred script function are values taken at the defer statement"})
+    EXPECT.append({"src": "%s\nfunc f() { defer probe(%s); %s }\nf()\nnil" % (_init, _read, _write), "field": "trace", "want": "(%s)" % _want,
+                   "why": "the argument of a deferred Go function is the value at the defer statement"})
+    EXPECT.append({"src": "%s\nr = []\nfunc rec(x) { r += x }\nfunc f() { defer rec(%s); %s; throw \"out\" }\ntry { f() } catch e { }\nr" % (_init, _read, _write), "field": "result",
+                   "want": "[%s]" % _want, "why": "also when the function is left by an error"})
+    EXPECT.append({"src": "%s\nfunc rec(x) { probe(x) }\ndefer rec(%s)\n%s\nnil" % (_init, _read, _write), "field": "trace", "want": "(%s)" % _want,
+                   "why": "a top-level deferred script function gets the value at the defer statement"})
+EXPECT.append({"src": "slot = [0]\nr = []\nfunc rec(x) { r += x }\nfunc f() { for i in [10, 20, 30] { slot[0] = i; defer rec(slot[0]) }; slot[0] = 1; return 5 }\nx = f()\nr += x\nr", "field": "result",
+               "want": "[i:30,i:20,i:10,i:5]", "why": "defers registered in a loop from one reused slot keep the value of their own iteration, LIFO"})
+
 
 def run(tier, seed, replay=None):
     return interpcheck.run_interp_check(
